@@ -41,10 +41,10 @@ Proof. intros H. f_equal. apply map_ext. exact H. Qed.
 Definition user_dims (dim : dimarg) : option (list Z) :=
   match dim with DimInt z => Some [z] | DimTuple l => Some l | _ => None end.
 
-Theorem cast_reduction_tuple (bs : shape) (names : names_t) dim kd con zs nd :
+Theorem cast_reduction_tuple fx (bs : shape) (names : names_t) dim kd con zs nd :
   user_dims dim = Some zs ->
   sequence (map (norm_dim (List.length bs)) zs) = Some nd ->
-  cast_reduction bs names dim kd true con None
+  cast_reduction fx bs names dim kd true con None
   = Ok {| ro_bs := torch_reduce bs nd (kd_truthy kd);
           ro_names := option_map (fun ns => torch_reduce_names ns nd (kd_truthy kd)) names;
           ro_call := LcDim (PTuple nd) kd; ro_post := PostNone |}.
@@ -56,20 +56,21 @@ Proof.
       now injection Hs as <-.
     - rewrite (sequence_map_ext _ (norm_dim (List.length bs))) by (intros; apply correct_neg_dim_norm). now rewrite Hs. }
   rewrite Hp. cbn [orb]. unfold torch_reduce, torch_reduce_names.
+  assert (Hall : forall (A : Type) (l : list A), filter_idx (idx_neq_dim (PTuple nd)) l = l).
+  { intros A l. unfold filter_idx, idx_neq_dim. generalize 0. induction l as [|x l IH]; intros i; cbn; [reflexivity|]. now rewrite IH. }
   destruct (kd_truthy kd) eqn:K; cbn [negb andb].
   - f_equal. f_equal.
     + apply map_idx_reduce.
-    + destruct names; cbn; [|reflexivity]. f_equal. unfold filter_idx, idx_neq_dim.
-      clear. generalize 0. induction l as [|x l IH]; intros i; cbn; [reflexivity|]. now rewrite IH.
+    + destruct names; [|now destruct fx]. destruct fx; cbn [option_map]; [reflexivity|]. now rewrite Hall.
   - f_equal. f_equal.
     + apply filter_idx_reduce.
-    + destruct names; cbn; [|reflexivity]. f_equal. apply filter_idx_reduce.
+    + destruct names; [|now destruct fx]. destruct fx; cbn [option_map]; f_equal; apply filter_idx_reduce.
 Qed.
 
-Theorem cast_reduction_tuple_out_of_range (bs : shape) names dim kd con zs :
+Theorem cast_reduction_tuple_out_of_range fx (bs : shape) names dim kd con zs :
   user_dims dim = Some zs ->
   sequence (map (norm_dim (List.length bs)) zs) = None ->
-  cast_reduction bs names dim kd true con None = Raised.
+  cast_reduction fx bs names dim kd true con None = Raised.
 Proof.
   intros Hu Hs. unfold cast_reduction.
   assert (Hp : proc_dim dim (List.length bs) true = Raised).
@@ -135,9 +136,9 @@ Proof.
 Qed.
 
 (* ========== single-dim reductions (amin, amax, min, max; prod before its keepdim step): keepdim = False ========== *)
-Theorem cast_reduction_single (bs : shape) (names : names_t) z d con :
+Theorem cast_reduction_single fx (bs : shape) (names : names_t) z d con :
   norm_dim (List.length bs) z = Some d ->
-  cast_reduction bs names (DimInt z) KdFalse false con None
+  cast_reduction fx bs names (DimInt z) KdFalse false con None
   = Ok {| ro_bs := torch_reduce bs [d] false;
           ro_names := option_map (fun ns => torch_reduce_names ns [d] false) names;
           ro_call := LcDim (PInt (Z.of_nat d)) KdFalse; ro_post := PostNone |}.
@@ -148,8 +149,8 @@ Proof.
     apply Z.eqb_neq. lia. }
   f_equal. f_equal.
   - unfold torch_reduce. rewrite <- filter_idx_reduce. unfold filter_idx. apply filter_idx_from_ext. intros j. now rewrite E.
-  - destruct names; cbn [option_map]; [|reflexivity]. f_equal. unfold torch_reduce_names. rewrite <- filter_idx_reduce.
-    unfold filter_idx, idx_neq_dim. apply filter_idx_from_ext. intros j. now rewrite E.
+  - destruct names; [|now destruct fx]. destruct fx; cbn [option_map]; f_equal; unfold torch_reduce_names; rewrite <- filter_idx_reduce;
+      unfold filter_idx, idx_neq_dim; apply filter_idx_from_ext; intros j; now rewrite E.
 Qed.
 
 (* ========== refutations (witnesses by computation) ========== *)
@@ -158,7 +159,7 @@ Local Open Scope string_scope.
 (* D43: keepdim=True on a single-dim reduction keeps the batch dim but drops its name *)
 Theorem names_keepdim_refuted :
   exists bs ns r, List.length ns = List.length bs /\
-    front RSingle bs (Some ns) (DimInt 0) KdTrue = Ok r /\
+    front false RSingle bs (Some ns) (DimInt 0) KdTrue = Ok r /\
     ro_bs r = torch_reduce bs [0] true /\
     option_map (@List.length _) (ro_names r) <> Some (List.length (ro_bs r)).
 Proof.
@@ -168,24 +169,24 @@ Qed.
 
 (* D43: cumulative ops keep the batch size and drop a name *)
 Theorem names_cumulative_refuted :
-  exists bs ns r, front RCum bs (Some ns) (DimInt 0) KdNoDefault = Ok r /\ ro_bs r = bs /\
+  exists bs ns r, front false RCum bs (Some ns) (DimInt 0) KdNoDefault = Ok r /\ ro_bs r = bs /\
     option_map (@List.length _) (ro_names r) <> Some (List.length (ro_bs r)).
 Proof. exists [2; 3], [Some "p"; Some "q"]. eexists. split; [reflexivity|]. split; [reflexivity|]. cbn. discriminate. Qed.
 
 (* D44: dim=None : batch size [1]*n where torch reduces to a 0-d tensor *)
 Theorem dim_none_refuted :
-  exists bs r, front RTuple bs None DimNone KdNoDefault = Ok r /\
+  exists bs r, front false RTuple bs None DimNone KdNoDefault = Ok r /\
     ro_bs r <> torch_reduce bs (seq 0 (List.length bs)) false.
 Proof. exists [2; 3]. eexists. split; [reflexivity|]. cbn. discriminate. Qed.
 
 (* D45: a tuple of dims on amin/amax reduces the first member only *)
 Theorem tuple_single_refuted :
-  exists bs r, front RSingle bs None (DimTuple [0; 1]%Z) KdNoDefault = Ok r /\ ro_bs r <> torch_reduce bs [0; 1] false.
+  exists bs r, front false RSingle bs None (DimTuple [0; 1]%Z) KdNoDefault = Ok r /\ ro_bs r <> torch_reduce bs [0; 1] false.
 Proof. exists [2; 3]. eexists. split; [reflexivity|]. cbn. discriminate. Qed.
 
 (* D46: prod(dim=0, keepdim=True) *)
 Theorem prod_keepdim_dim0_refuted :
-  exists bs, front RProd bs None (DimInt 0) KdTrue = Raised /\ norm_dim (List.length bs) 0 = Some 0.
+  exists bs, front false RProd bs None (DimInt 0) KdTrue = Raised /\ norm_dim (List.length bs) 0 = Some 0.
 Proof. exists [2; 3]. split; reflexivity. Qed.
 
 (* ========== prod(dim, keepdim=True): unsqueeze of the reduced result restores the dim, except for dim = 0 ========== *)
@@ -213,13 +214,14 @@ Proof.
     replace (i + S d) with (S i + d) by lia. rewrite IH by lia. lia.
 Qed.
 
-Theorem prod_keepdim_nonzero (bs : shape) z d :
-  norm_dim (List.length bs) z = Some d -> z <> 0%Z ->
-  exists r, front RProd bs None (DimInt z) KdTrue = Ok r /\ ro_bs r = torch_reduce bs [d] true /\
+Theorem prod_keepdim_nonzero fx (bs : shape) z d :
+  norm_dim (List.length bs) z = Some d -> (fx = true \/ z <> 0%Z) ->
+  exists r, front fx RProd bs None (DimInt z) KdTrue = Ok r /\ ro_bs r = torch_reduce bs [d] true /\
             ro_call r = LcDim (PInt (Z.of_nat d)) KdFalse /\ ro_post r = PostUnsqueeze d.
 Proof.
-  intros Hn Hz. unfold front. rewrite (cast_reduction_single bs None z d true Hn). cbn [kd_truthy option_map].
-  replace (Z.eqb z 0) with false by (symmetry; now apply Z.eqb_neq).
+  intros Hn Hz. unfold front. rewrite (cast_reduction_single fx bs None z d true Hn). cbn [kd_truthy option_map].
+  replace (negb fx && Z.eqb z 0) with false
+    by (symmetry; destruct Hz as [->|Hz]; [reflexivity|apply andb_false_iff; right; now apply Z.eqb_neq]).
   pose proof (norm_dim_lt _ _ _ Hn) as Hd.
   unfold td_unsqueeze. cbn [ro_bs ro_names ro_call].
   unfold torch_reduce.
@@ -236,4 +238,149 @@ Proof.
   replace ((Z.of_nat d >? Z.of_nat (List.length bs - 1)) || (Z.of_nat d <? 0))%Z with false by lia.
   rewrite Nat2Z.id. eexists. split; [reflexivity|]. cbn [ro_bs ro_call ro_post]. split; [|split; reflexivity].
   apply (insert_restores bs 0 d Hd).
+Qed.
+
+(* ========== the patched reductions (fx = true): what was refuted above now holds ========== *)
+
+Lemma map_idx_from_ext {A B} (f g : nat -> A -> B) : forall (l : list A) i,
+  (forall j x, f j x = g j x) -> map_idx_from f i l = map_idx_from g i l.
+Proof. induction l as [|x l IH]; intros i H; cbn; [reflexivity|]. now rewrite H, (IH (S i) H). Qed.
+
+(* D43: a kept dim keeps its name — single-dim reductions with keepdim=True *)
+Theorem cast_reduction_single_keepdim (bs : shape) (names : names_t) z d con :
+  norm_dim (List.length bs) z = Some d ->
+  cast_reduction true bs names (DimInt z) KdTrue false con None
+  = Ok {| ro_bs := torch_reduce bs [d] true;
+          ro_names := option_map (fun ns => torch_reduce_names ns [d] true) names;
+          ro_call := LcDim (PInt (Z.of_nat d)) KdTrue; ro_post := PostNone |}.
+Proof.
+  intros H. unfold cast_reduction. cbn [proc_dim]. rewrite correct_neg_dim_norm, H. cbn [orb kd_truthy negb andb].
+  assert (E : forall i, Z.eqb (Z.of_nat i) (Z.of_nat d) = nat_in i [d]).
+  { intros i. unfold nat_in. cbn. rewrite orb_false_r. destruct (Nat.eqb_spec i d) as [->|N]; [apply Z.eqb_refl|].
+    apply Z.eqb_neq. lia. }
+  f_equal. f_equal.
+  all: try (now destruct names).
+  unfold torch_reduce. rewrite <- map_idx_reduce. apply map_idx_from_ext. intros j x. now rewrite E.
+Qed.
+
+(* D43: cumulative ops keep batch size and names *)
+Theorem front_cumulative (bs : shape) (names : names_t) z d kd :
+  norm_dim (List.length bs) z = Some d ->
+  front true RCum bs names (DimInt z) kd
+  = Ok {| ro_bs := bs; ro_names := names; ro_call := LcDim (PInt (Z.of_nat d)) KdNoDefault; ro_post := PostNone |}.
+Proof.
+  intros H. unfold front, cast_reduction. cbn [proc_dim]. rewrite correct_neg_dim_norm, H. cbn. now destruct names.
+Qed.
+
+(* D44: dim=None reduces every dim *)
+Lemma reduce_all_none {A} : forall (l : list A) i k, reduce_from None (i + k) l (seq i (k + List.length l)) = [].
+Proof.
+  induction l as [|x l IH]; intros i k; cbn; [reflexivity|].
+  replace (existsb (Nat.eqb (i + k)) (seq i (k + S (List.length l)))) with true.
+  - replace (S (i + k)) with (i + S k) by lia. replace (k + S (List.length l)) with (S k + List.length l) by lia. apply IH.
+  - symmetry. apply existsb_exists. exists (i + k). split; [apply in_seq; lia|apply Nat.eqb_refl].
+Qed.
+Lemma reduce_all_ones : forall (l : list nat) i k,
+  reduce_from (Some 1) (i + k) l (seq i (k + List.length l)) = map (fun _ => 1) l.
+Proof.
+  induction l as [|x l IH]; intros i k; cbn; [reflexivity|].
+  replace (existsb (Nat.eqb (i + k)) (seq i (k + S (List.length l)))) with true.
+  - f_equal. replace (S (i + k)) with (i + S k) by lia. replace (k + S (List.length l)) with (S k + List.length l) by lia. apply IH.
+  - symmetry. apply existsb_exists. exists (i + k). split; [apply in_seq; lia|apply Nat.eqb_refl].
+Qed.
+
+Theorem front_dim_none (bs : shape) (names : names_t) kd :
+  exists r, front true RTuple bs names DimNone kd = Ok r /\
+    ro_bs r = torch_reduce bs (seq 0 (List.length bs)) (kd_truthy kd) /\
+    ro_names r = (if kd_truthy kd then names else None) /\ ro_call r = LcDim PNone kd.
+Proof.
+  unfold front, cast_reduction. cbn [proc_dim orb]. eexists. split; [reflexivity|]. cbn [ro_bs ro_names ro_call].
+  split; [|split; [|reflexivity]].
+  - unfold torch_reduce. destruct (kd_truthy kd); cbn [andb negb].
+    + symmetry. apply (reduce_all_ones bs 0 0).
+    + symmetry. apply (reduce_all_none bs 0 0).
+  - destruct names; destruct (kd_truthy kd); reflexivity.
+Qed.
+
+(* D45: amin / amax take tuples like the other tuple reductions *)
+Theorem front_aminmax (bs : shape) (names : names_t) dim kd zs nd :
+  user_dims dim = Some zs -> sequence (map (norm_dim (List.length bs)) zs) = Some nd ->
+  let kd' := match kd with KdNoDefault => KdFalse | k => k end in
+  front true RAminmax bs names dim kd
+  = Ok {| ro_bs := torch_reduce bs nd (kd_truthy kd);
+          ro_names := option_map (fun ns => torch_reduce_names ns nd (kd_truthy kd)) names;
+          ro_call := LcDim (PTuple nd) kd'; ro_post := PostNone |}.
+Proof.
+  intros Hu Hs kd'. unfold front. fold kd'. rewrite (cast_reduction_tuple true bs names dim kd' false zs nd Hu Hs).
+  now destruct kd.
+Qed.
+
+(* D46: prod(dim, keepdim=True) for every in-range dim, 0 included *)
+Theorem prod_keepdim (bs : shape) z d :
+  norm_dim (List.length bs) z = Some d ->
+  exists r, front true RProd bs None (DimInt z) KdTrue = Ok r /\ ro_bs r = torch_reduce bs [d] true /\
+            ro_call r = LcDim (PInt (Z.of_nat d)) KdFalse /\ ro_post r = PostUnsqueeze d.
+Proof. intros H. apply prod_keepdim_nonzero; [exact H|now left]. Qed.
+
+(* D43 + D47, every front-end, every argument: the result never has a different number of names and batch dims *)
+Lemma filter_idx_from_len {A B} (keep : nat -> bool) : forall (l : list A) (m : list B) i,
+  List.length l = List.length m -> List.length (filter_idx_from keep i l) = List.length (filter_idx_from keep i m).
+Proof.
+  induction l as [|x l IH]; intros [|y m] i H; cbn in *; try discriminate; [reflexivity|].
+  destruct (keep i); cbn; rewrite (IH m (S i)); lia.
+Qed.
+Lemma map_idx_from_len {A B} (f : nat -> A -> B) : forall (l : list A) i, List.length (map_idx_from f i l) = List.length l.
+Proof. induction l as [|x l IH]; intros i; cbn; [reflexivity|]. now rewrite IH. Qed.
+Lemma insert_at_len {A} (x : A) : forall n l, List.length (insert_at n x l) = S (List.length l).
+Proof. induction n as [|n IH]; intros [|y l]; cbn; try reflexivity. now rewrite IH. Qed.
+
+Definition names_ok (r : red_out) : Prop := forall ns', ro_names r = Some ns' -> List.length ns' = List.length (ro_bs r).
+
+Lemma cast_reduction_names_ok (bs : shape) ns dim kd tok con ov r :
+  List.length ns = List.length bs -> (forall b, ov = Some b -> List.length b = List.length bs) ->
+  cast_reduction true bs (Some ns) dim kd tok con ov = Ok r -> names_ok r.
+Proof.
+  intros Hl Hov. unfold cast_reduction. destruct (proc_dim dim (List.length bs) tok) as [d|]; [|discriminate].
+  destruct d.
+  - (* PNoDefault *) cbn [orb]. destruct (kd_truthy kd) eqn:K; cbn [negb andb].
+    + intros [= <-]. intros ns' [= <-]. cbn. destruct ov as [b|]; [now rewrite (Hov b eq_refl)|]. now rewrite map_length.
+    + intros [= <-]. intros ns' H. discriminate.
+  - (* PNone *) cbn [orb]. intros [= <-]. intros ns'. cbn.
+    destruct (kd_truthy kd); destruct ov as [b|]; cbn; try discriminate; intros [= <-];
+      try (now rewrite (Hov b eq_refl)); now rewrite map_length.
+  - (* PInt *) cbn [orb]. intros [= <-]. intros ns'. cbn.
+    destruct (kd_truthy kd); destruct ov as [b|]; cbn; intros [= <-]; try (now rewrite (Hov b eq_refl)).
+    + now rewrite map_idx_from_len.
+    + unfold filter_idx. apply filter_idx_from_len. exact Hl.
+  - (* PTuple *) cbn [orb]. intros [= <-]. intros ns'. cbn.
+    destruct (kd_truthy kd); destruct ov as [b|]; cbn; intros [= <-]; try (now rewrite (Hov b eq_refl)).
+    + now rewrite map_idx_from_len.
+    + unfold filter_idx. apply filter_idx_from_len. exact Hl.
+  - (* PFeature *) destruct (kd_truthy kd); [discriminate|]. destruct (negb con); [discriminate|].
+    intros [= <-]. intros ns' [= <-]. exact Hl.
+Qed.
+
+Theorem front_names_ok op (bs : shape) ns dim kd r :
+  List.length ns = List.length bs -> front true op bs (Some ns) dim kd = Ok r -> names_ok r.
+Proof.
+  intros Hl. destruct op; cbn [front].
+  - apply cast_reduction_names_ok; [exact Hl|discriminate].
+  - apply cast_reduction_names_ok; [exact Hl|discriminate].
+  - apply cast_reduction_names_ok; [exact Hl|discriminate].
+  - apply cast_reduction_names_ok; [exact Hl|]. now intros b [= <-].
+  - destruct (cast_reduction true bs (Some ns) dim KdFalse false true None) as [r0|] eqn:E; [|discriminate].
+    pose proof (cast_reduction_names_ok bs ns dim KdFalse false true None r0 Hl ltac:(discriminate) E) as H0.
+    destruct (kd_truthy kd); [|now intros [= <-]].
+    assert (Hre : forall r1, (if Nat.eqb (fold_right Nat.mul 1 (ro_bs r0)) 1
+                              then Ok {| ro_bs := map (fun _ => 1) bs; ro_names := None; ro_call := ro_call r0; ro_post := PostReshapeOnes |}
+                              else Raised) = Ok r1 -> names_ok r1).
+    { intros r1. destruct (Nat.eqb _ 1); [|discriminate]. intros [= <-]. intros ns' H. discriminate. }
+    assert (Hun : forall z r1, match td_unsqueeze true (ro_bs r0) (ro_names r0) z with
+                               | Ok (b, n, pos) => Ok {| ro_bs := b; ro_names := n; ro_call := ro_call r0; ro_post := PostUnsqueeze pos |}
+                               | Raised => Raised end = Ok r1 -> names_ok r1).
+    { intros z r1. unfold td_unsqueeze. destruct (_ || _)%bool; [discriminate|]. intros [= <-]. intros ns'. cbn.
+      destruct (ro_names r0) as [[|x l]|] eqn:En; intros [= <-]; rewrite !insert_at_len; f_equal; symmetry.
+      - rewrite <- (H0 [] En). reflexivity.
+      - rewrite <- (H0 (x :: l) En). reflexivity. }
+    destruct dim as [| |z|[|z l]|]; cbn [negb andb]; try (apply Hre); try discriminate; try (apply Hun).
 Qed.
